@@ -93,6 +93,33 @@ add("C05",
     "Trusted: pandas index construction; the labelling model in oracles/reference.py; affected columns are compared as sets.",
     "DESIGN.md section 4, C05")
 
+add("C07",
+    "Hypothesis PBT: brute-force per-interval argmax via an independent scorer + set-valued greedy reference model on the reported table; metamorphic threshold monotonicity",
+    "Generated seeded-binseg settings (msl, max_interval_length incl. the boundary 2*msl, growth factor, threshold scales incl. "
+    "0 and tuned), built-in scorers on structured data and user-defined integer Table/Function change scores (ties); the "
+    "candidate table is checked for existence/bounds/lengths, each row's score and maximiser are recomputed by brute force, the "
+    "reported changepoints must be one of the outcomes of the greedy rule under any tie-break, plus support, coverage and the "
+    "subset relation under a larger threshold. Bounded exploration (n<=60).",
+    "Trusted: change score values (C06); greedy model in oracles/reference.py (DFS capped at 2000 nodes, fallback to the "
+    "stated consequences); thresholds >= 0 only.",
+    "DESIGN.md section 4, C07")
+add("C08",
+    "Hypothesis PBT: window-score and peak-of-run reference model (independent scorer + definitional values); time-reversal metamorphic relation with margin rule",
+    "Generated moving-window settings (bandwidth from 1, admissible min_detection_interval, threshold scales incl. 0 and tuned), "
+    "built-in and integer Table/Function change scores; every score is compared with the change score of X[t-b:t] vs X[t:t+b] "
+    "(0 elsewhere) and, for the mean-change scores, with the definitional statistic from the rows; changepoints with the "
+    "peak-of-run model (any maximal position accepted); reversed series maps scores and changepoints t -> n-t. Bounded (n<=80).",
+    "Trusted: error model of DESIGN.md 3.4 for the reversal tolerance; discrete comparison only under the margin rule.",
+    "DESIGN.md section 4, C08")
+add("C09",
+    "Hypothesis PBT: brute-force inner-interval argmax via an independent scorer + set-valued greedy overlap model on the reported table; metamorphic threshold monotonicity",
+    "Generated circular-binseg settings (msl from 1, max_interval_length incl. 2*msl, growth factor, threshold scales incl. 0 and "
+    "tuned), local scores from L2 / Gaussian / user L1 costs and integer Table/Function local scores; every table row's score and "
+    "inner interval are recomputed over all admissible inner intervals, candidate-free rows must stay at 0, the reported anomalies "
+    "must be an outcome of the greedy overlap-removal rule, and a larger threshold returns a subset. Bounded (n<=30).",
+    "Trusted: local anomaly score values (C06); greedy model in oracles/reference.py; thresholds >= 0 only.",
+    "DESIGN.md section 4, C09")
+
 NOT_BUILT_REASON = "check not built yet in this round (designed in DESIGN.md section 4; no claim is made)"
 
 
